@@ -235,6 +235,24 @@ def fault_plans(cfg, warm, op, nr, interrupts=False, trunc_all=False):
         for k in range(1, n + 1):
             for kind in kinds:
                 plans.append({(optype, k): kind})
+    if interrupts:
+        # an ordinary failure whose clean-up (the error-path close()) is itself interrupted, before or after the
+        # descriptor is closed
+        first = []
+        if counters.get("recv"):
+            first += [{("recv", 1): "timeout"}, {("recv", counters["recv"]): "reset"}]
+        if counters.get("sendall"):
+            first.append({("sendall", 1): "timeout"})
+        for (cid, idx, nbytes) in units[:2]:
+            if nbytes:
+                first += [{("reply", idx): "garbage"}, {("reply", idx): ("trunc", max(0, nbytes // 2), False)}]
+        for k in range(1, counters.get("sendall", 0) + 1):
+            for kind in INTERRUPT_KINDS:
+                plans.append({("sendall", k): ("half", kind)})      # interrupted with the request half sent
+        for fp in first:
+            for kind in INTERRUPT_KINDS:
+                plans.append({**fp, ("close", 1): ("pre", kind)})
+                plans.append({**fp, ("close", 1): kind})
     if not interrupts:
         for (cid, idx, nbytes) in units:
             if nbytes == 0:
